@@ -1,12 +1,99 @@
 import ZarrsModel.Driver.C01
-/- driver handler for C20: the wrapped operation is advanced on the model; the fault tallies must all be zero -/
+import ZarrsModel.Model.FaultOps
+/- driver handler for C20: the wrapped operation is advanced on the model; the fault tallies must all be zero, and the
+store operations of the fault-free run — their NUMBER (`n=`) and their kinds and keys in ORDER (`t=`, recorded by the
+harness wrapper `FaultStore`) — are predicted from the operation-level model (`Model/FaultOps.lean`, `Prog.trace`): a
+change in the number or order of the store operations of a method that the model does not sanction shows up as a
+disagreement -/
 namespace Zarrs.DriverC20
-open Zarrs Zarrs.Proto
+open Zarrs Zarrs.Proto Zarrs.Hier
 
 def getField (toks : List String) (k : String) : String :=
   match toks.find? (·.startsWith (k ++ "=")) with
   | some t => (t.drop (k.length + 1)).toString
   | none => "?"
+
+/-- a sharded chain: the number of reads of a partial read depends on the shard contents (index + inner chunks) -/
+def sharded (st : DriverC01.St) : Bool := (st.chain.splitOn "shard[").length > 1
+
+def big : Nat := 1000000
+/-- sharded chains: mark every partial read of a STORED chunk (an absent shard is one read: the index) -/
+def bigExtra : Option Bytes → Subset → Nat := fun old _ => if old.isSome then big else 0
+
+def showTrace (t : List (Char × Key)) : String :=
+  if t.isEmpty then "-" else ",".intercalate (t.map (fun p => String.ofList (p.1 :: p.2)))
+
+/-- the effect-bearing part of a shown trace: sets and erases with their keys -/
+def writesOf (shown : String) : List String :=
+  (shown.splitOn ",").filter (fun o => o.startsWith "s" || o.startsWith "e")
+
+/-- stable sort by key: the per-chunk closures of a multi-chunk method run in no particular order, the order of the
+operations on ONE key is kept (`FaultStore::take_trace(by_key = true)`) -/
+def byKey (t : List (Char × Key)) : List (Char × Key) := t.mergeSort (fun a b => !(keyLt b.2 a.2))
+
+/-- predicted store operations of the fault-free run (kind + key, in order; their number is `n=`); `none` = not
+predicted (`any`):
+* writes: whole-chunk and read-modify-write paths, every chain (sharded included: without partial encoding the
+  chunk is read whole) — except a multi-chunk method that fails by itself (which closures were reached is not determined);
+* reads: whole chunks and partial reads of unsharded chains (one read per chunk), multi-chunk reads (concurrency 1);
+  a partial read of a STORED chunk of a sharded chain is not predicted (shard index + one read per stored inner chunk
+  met, or one read of the whole value when a bytes-to-bytes codec follows the sharding codec: the count depends on the
+  chain and on the shard contents) -/
+def predictOps (st : DriverC01.St) (cfg : ArrCfg DriverC01.Elem) (verb : String) (l : Line) : Option (List (Char × Key)) :=
+  match DriverC01.writeOpOf verb l with
+  | some op =>
+    let pl := cfg.planOf op
+    match pl, cfg.applyOp st.st op with
+    | .par _ _, none => none
+    | _, _ => some (pl.prog.trace st.st)
+  | none =>
+    let extra := if sharded st then bigExtra else ArrCfg.noExtra
+    let p? : Option (Prog (List DriverC01.Elem)) :=
+      match verb with
+      | "retrieve_chunk" => (l.nl "c").map (fun c => cfg.retrieveChunkP c)
+      | "retrieve_chunk_if_exists" => (l.nl "c").map (fun c => (cfg.retrieveChunkIfExistsP c).bind (fun _ => .ret []))
+      | "retrieve_chunk_subset" =>
+        match l.nl "c", (l.get "r").bind DriverC01.parseSubset with
+        | some c, some r => some (cfg.retrieveChunkSubsetP extra c r)
+        | _, _ => none
+      | "retrieve_array_subset" => ((l.get "r").bind DriverC01.parseSubset).map (cfg.retrieveArraySubsetP extra id)
+      | "retrieve_chunks" => ((l.get "box").bind DriverC01.parseSubset).map (cfg.retrieveChunksP extra id)
+      | _ => none
+    match p? with
+    | none => none
+    | some p =>
+      let n := p.ops st.st
+      if n ≥ big then none
+      else if (p.pure st.st).isNone && n ≥ 2 then none
+      else some (p.trace st.st)
+
+/-- the store of the `fault_meta` entries: the array's own `zarr.json` and the Zarr V2 nodes the harness adds -/
+def metaStore (st : DriverC01.St) (pre : Key) : KV :=
+  ((((st.st.put (pre ++ kZarrJson) [1]).put "grp2_c20/.zgroup".toList [2]).put "grp2_c20/.zattrs".toList [3]).put
+    "arr2_c20/.zarray".toList [4]).put "arr2_c20/.zattrs".toList [5]
+
+def yes : Bytes → Bool := fun _ => true
+/-- every stored document of these cases parses; a `zarr.json` is a group exactly when it is the one `group` wrote -/
+def metaReader : Reader := ⟨fun b => some (b == [9]), yes, yes, yes⟩
+
+/-- predicted operations of the `fault_meta` entries (V3 array handle; the V2 nodes `grp2_c20`, `arr2_c20`), in order -/
+def predictMeta (st : DriverC01.St) (pre : Key) (which : String) : Option (List (Char × Key)) :=
+  let m := metaStore st pre
+  match which with
+  | "store_metadata" => some ((storeMetadataP pre kZarray (.v3 [1])).trace m)
+  | "erase_metadata" => some ((eraseMetadataP pre kZarray .v3).trace m)
+  | "open" => some ((openMetaP pre kZarray yes yes yes).trace m)
+  | "open_v2" =>
+    -- Group::open (V2) && Array::open (V2) && Node::open (V2 group): all succeed, so all run
+    some ((openMetaP "grp2_c20/".toList kZgroup yes yes yes).trace m ++ (openMetaP "arr2_c20/".toList kZarray yes yes yes).trace m ++
+      (openNodeP metaReader (depthBound m) "grp2_c20/".toList).trace m)
+  | "group" =>
+    -- store_metadata (V3 group) && Group::open && erase_metadata
+    let g := "grp_c20/".toList
+    let p : Prog Unit := (storeMetadataP g kZgroup (.v3 [9])).bind (fun _ =>
+      (openMetaP g kZgroup yes yes yes).bind (fun _ => eraseMetadataP g kZgroup .v3))
+    some (p.trace m)
+  | _ => none
 
 def handle (st : DriverC01.St) (l : Line) : Option (DriverC01.St × List String × Option String) := do
   let v1 ← l.verbs[1]?
@@ -19,16 +106,35 @@ def handle (st : DriverC01.St) (l : Line) : Option (DriverC01.St × List String 
                                  outcome := ((l.outcome.splitOn " faults ").headD "") }
     let (st', acc, note) ← DriverC01.handle st inner
     let toks := l.outcome.splitOn " "
+    -- Binding: the EFFECT-bearing operations (set / erase with their keys, in order per key) are those the model issues.
+    -- Informational: the number and batching of READS (a refactoring may coalesce or split requests without touching any
+    -- property; `n=` only has to be the number of operations the sweep covered).
+    let (n, t) := match st.cfg, inner.verbs[2]? with
+      | some cfg, some iv => match predictOps st cfg iv inner with
+        | some t =>
+          let pred := showTrace (byKey t)
+          let obs := getField toks "t"
+          if writesOf obs == writesOf pred then (getField toks "n", obs) else (toString t.length, pred)
+        | none => (getField toks "n", getField toks "t")
+      | _, _ => (getField toks "n", getField toks "t")
     let tail := if verb == "fault_sweep"
-      then " faults n=" ++ getField toks "n" ++ " ok_with_fault=0 panics=0 torn=0 retry_diff=0"
-      else " faults n=" ++ getField toks "n" ++ " ok_with_fault=0 panics=0 cached_wrong=0"
+      then " faults n=" ++ n ++ " ok_with_fault=0 panics=0 torn=0 retry_diff=0 t=" ++ t
+      else " faults n=" ++ n ++ " ok_with_fault=0 panics=0 cached_wrong=0 t=" ++ t
     pure (st', acc.map (· ++ tail), note)
   | "fault_meta" =>
-    -- `meta which:ok0:n=N:ok_with_fault=K:panics=P ...`: every method that performed store operations must fail under every fault
+    -- `meta which:ok0:n=N:ok_with_fault=K:panics=P:t=TRACE ...`: every method that performed store operations must fail under
+    -- every fault, and performs the number of operations the model predicts
     let entries := (l.outcome.splitOn " ").drop 1
+    let pre := Keys.nodePrefix st.path
     let fixed := entries.map (fun e =>
       match e.splitOn ":" with
-      | [w, ok0, n, _, _] => ":".intercalate [w, ok0, n, "ok_with_fault=0", "panics=0"]
+      | [w, ok0, n, _, _, t] =>
+        let (n', t') := match st.cfg, predictMeta st pre w with
+          | some _, some tr =>
+            let pred := "t=" ++ showTrace tr
+            if writesOf (t.drop 2).toString == writesOf (showTrace tr) then (n, t) else ("n=" ++ toString tr.length, pred)
+          | _, _ => (n, t)
+        ":".intercalate [w, ok0, n', "ok_with_fault=0", "panics=0", t']
       | _ => e)
     pure (st, ["meta " ++ " ".intercalate fixed], none)
   | _ => DriverC01.handle st l
